@@ -9,7 +9,7 @@ COUNT likewise, MIN/MAX(X) = MIN/MAX(X1,X2), COUNTBLANK(X) = COUNTBLANK(X1)+COUN
 import datetime as dt
 import math
 
-from .. import wbspec
+from .. import pipeline, wbspec
 from ..findings import report
 from ..refcheck import judge_book, replay_case
 from ..xlref.values import is_num, norm, Err
@@ -118,6 +118,9 @@ def truth_arg(rng):
     return f'F{rng.randrange(1, 5)}'          # column F: boolean cells
 
 
+COMBOS = []
+
+
 def make_book(rng):
     cells = {0: {}, 1: {}}
     for si in (0, 1):
@@ -170,6 +173,35 @@ def make_book(rng):
     for _ in range(8):
         fn = rng.choice(['AND', 'OR'])
         put(f'={fn}({",".join(truth_arg(rng) for _ in range(rng.randrange(1, 5)))})', nargs=2)
+    # a fold NEXT TO another consumer of the very same area in one formula (a share: conditional sum / total): what the other function does
+    # with the area - and whatever it remembers of it - is not the fold's business.  One-row, one-cell, column and rectangle areas of every
+    # content.  A law, no reference (what a criterion makes of mixed kinds is C12's matter): the formula gives what its two parts give in
+    # evaluations of their own.
+    del COMBOS[:]
+    for k_ in range(12):
+        pre = rng.choice(['', '', 'U!'])
+        kind = rng.choice(['row', 'row', 'row', 'cell', 'col', 'rect'])
+        r1, r2 = rng.sample(range(1, 9), 2)
+        c1 = rng.randrange(1, 4)
+        c2 = rng.randrange(c1 + 1, 6)
+        L_ = wbspec.get_column_letter
+        if kind == 'row':
+            X, Y = f'{pre}{L_(c1)}{r1}:{L_(c2)}{r1}', f'{pre}{L_(c1)}{r2}:{L_(c2)}{r2}'
+        elif kind == 'cell':
+            X, Y = f'{pre}{L_(c1)}{r1}', f'{pre}{L_(c2)}{r2}'
+        elif kind == 'col':
+            X, Y = f'{pre}{L_(c1)}1:{L_(c1)}6', f'{pre}{L_(c2)}1:{L_(c2)}6'
+        else:
+            X, Y = f'{pre}{L_(c1)}1:{L_(c1 + 1)}4', f'{pre}{L_(c2 - 1)}3:{L_(c2)}6'
+        fold = rng.choice(FOLDS + ['COUNTBLANK'])
+        other = rng.choice(['SUMIFS({X},{Y},">0")', 'SUMIFS({X},{Y},"<>w")', 'AVERAGEIFS({X},{Y},">0")', 'SUMIF({Y},">0",{X})', 'COUNTIFS({X},">0")', 'SUMIFS({X},{X},">5")',
+                            'SUMIFS({X},{Y},">0",{X},"<30")', 'MATCH(5,{X},0)', 'INDEX({X},1,1)']).format(X=X, Y=Y)
+        shape = rng.choice(['=IFERROR({o},0)*1000+IFERROR({f}({X}),-7)', '=IFERROR({f}({X}),-7)+IFERROR({o},0)*1000', '=IFERROR({o},0)*1000+IFERROR({f}({X}),-7)+IFERROR({f}({X}),-7)*0'])
+        za, pa, qa = (wbspec.a1(k_ + 1, 20), wbspec.a1(k_ + 1, 21), wbspec.a1(k_ + 1, 22))
+        cells[0][za] = shape.format(o=other, f=fold, X=X)
+        cells[0][pa] = f'=IFERROR({other},0)'
+        cells[0][qa] = f'=IFERROR({fold}({X}),-7)'
+        COMBOS.append((za, pa, qa))
     # split laws
     for _ in range(10):
         pre = rng.choice(['', '', 'U!'])
@@ -326,6 +358,20 @@ def run_book(ctx, bi):
         r.count('books_translated_by_entry_cells')
     book = judge_book(ctx, ID, spec, [(0, a) for a, f, m in forms], vals[:2] if per_cell else vals, exact=False, name=f'agg{bi}', monitor='fold-reference',
                       on_result=on_result, classify=None, nontrivial=nontrivial, per_cell=per_cell)
+    # a fold next to another consumer of its area: the formula against its parts, per valuation, library against itself
+    for (za, pa, qa) in list(COMBOS):
+        for val in vals[:3]:
+            z, p_, q_ = (book.value(0, k, val) for k in (za, pa, qa))
+            r.ev()
+            r.count('fold_next_to_another_consumer_checked')
+            if not (p_.ok and q_.ok and is_num(norm(p_.value)) and is_num(norm(q_.value)) and not isinstance(p_.value, bool) and not isinstance(q_.value, bool)):
+                continue
+            want = p_.value * 1000 + q_.value
+            r.nt(('combo', bi, za, repr(val)[:40]))
+            if not (z.ok and is_num(norm(z.value)) and math.isclose(z.value, want, rel_tol=1e-12, abs_tol=1e-9)):
+                report(r, ID, None, {'law': 'COMBO', 'formula': spec['sheets'][0]['cells'][za], 'cell': za, 'sheet': 0, 'overrides': val, 'spec': spec,
+                                     'parts': [spec['sheets'][0]['cells'][pa], spec['sheets'][0]['cells'][qa]]},
+                       z.brief(), want, monitor='fold-next-to-another-consumer')
     # split laws, per valuation, library against itself
     for (fn, whole, p1, p2, both, text, sp) in laws:
         for val in vals:
@@ -414,6 +460,21 @@ def run_shard(shard, ctx):
     if isinstance(shard, dict) and 'mixed' in shard:
         from ..mixed import run_mixed
         return run_mixed(ctx, ID, shard['n'])
+    if 'replay' in shard and shard['replay'].get('law') == 'COMBO':
+        c = shard['replay']
+        book = pipeline.Book(c['spec'], ctx.workdir, name='replay')
+        if book.cls is None:
+            return ctx.r.violation('translate', {'spec': 'replay'}, book.whole.brief(), 'a loadable class')
+        cl = c['spec']['sheets'][0]['cells']
+        pa, qa = [k for k, v in cl.items() if v == c['parts'][0]][0], [k for k, v in cl.items() if v == c['parts'][1]][0]
+        val = [(s_, a_, wbspec.dec(v_)) for (s_, a_, v_) in c['overrides']]
+        z, p_, q_ = (book.value(0, k, val) for k in (c['cell'], pa, qa))
+        ctx.r.ev()
+        if p_.ok and q_.ok and is_num(norm(p_.value)) and is_num(norm(q_.value)):
+            want = p_.value * 1000 + q_.value
+            if not (z.ok and is_num(norm(z.value)) and math.isclose(z.value, want, rel_tol=1e-12, abs_tol=1e-9)):
+                report(ctx.r, ID, None, c, z.brief(), want, monitor='fold-next-to-another-consumer')
+        return
     if 'replay' in shard:
         return replay_case(ctx, ID, shard['replay'], exact=False)
     if 'tall' in shard:
